@@ -135,6 +135,10 @@ impl C01Case {
                         break;
                     }
                 }
+                Step::Renum(text, _) if text == "NEW" => {
+                    r.new_program();
+                    out.push((String::new(), Ended::Ready));
+                }
                 Step::Edit(p) | Step::Renum(_, p) => {
                     r.edit_program(p);
                     out.push((String::new(), Ended::Ready));
